@@ -29,6 +29,7 @@ from .harness import (
     Recorder,
     make_middleware,
     run_config,
+    run_overlapped,
 )
 from .kernel import Kernel
 from .model import expected_response
@@ -51,17 +52,17 @@ class HarnessError(Exception):
 
 PROFILES = {
     # weights / switches per check; see DESIGN.md section 4
-    "C08": dict(nreq=(1, 1), mutation=(1, 3), variants=False, reps=2,
-                configs="all", boom=(1, 5)),
+    "C08": dict(nreq=(1, 2), mutation=(1, 3), variants=False, reps=2,
+                configs="all", boom=(1, 5), overlap=True),
     "C09": dict(nreq=(1, 1), mutation=(1, 1), force_mutation=True,
                 variants=False, reps=2, configs="all", boom=(0, 1)),
     "C04": dict(nreq=(2, 6), mutation=(1, 3), variants=False, reps=1,
-                configs="one", boom=(0, 1), activities=True),
+                configs="one", boom=(0, 1), activities=True, overlap=True),
     "C10": dict(nreq=(1, 2), mutation=(1, 4), variants=True, reps=1,
                 configs="two", boom=(0, 1), nonfinite=(1, 6),
                 corruption=True),
     "C16": dict(nreq=(1, 2), mutation=(1, 3), variants=True, reps=1,
-                configs="all", boom=(1, 8), stacks=True),
+                configs="all", boom=(1, 8), stacks=True, overlap=True),
 }
 
 
@@ -95,7 +96,7 @@ class Request:
     __slots__ = ("op", "text", "variables", "operation_name", "wseed",
                  "faults", "exp", "variant", "nonfinite", "configs",
                  "ninstr", "mws", "tracer", "skew", "preparsed", "index",
-                 "gen", "document", "repeat_of")
+                 "gen", "document", "repeat_of", "exp_snapshot")
 
 
 def _gen_request(draws, spec, bundle, idx, profile, want_mut, tier="quick",
@@ -172,8 +173,13 @@ def _gen_request(draws, spec, bundle, idx, profile, want_mut, tier="quick",
         req.preparsed = True
     req.text = text
     req.wseed = rs.below(1 << 30, "wseed")
-    req.nonfinite = bool(profile.get("nonfinite")) and rs.chance(
-        *profile["nonfinite"], "nonfinite")
+    # (only uncorrupted requests get non-finite floats: for those the model
+    # knows whether a Float position holds one, and a RuntimeError -- the
+    # library's way of refusing an unserialisable resolver value -- is then
+    # the expected outcome rather than an escaped exception)
+    req.nonfinite = (req.variant == "normal"
+                     and bool(profile.get("nonfinite"))
+                     and rs.chance(*profile["nonfinite"], "nonfinite"))
 
     # validity of the *uncorrupted* operation is py-gql's own call; a
     # rejection is a discard, never a violation (C05/C06 are not claimed)
@@ -215,6 +221,7 @@ def _finish_request(draws, spec, req, idx, profile, rs, tier):
         req.exp = expected_response(
             spec, op, World(spec, req.wseed, req.faults,
                             nonfinite=req.nonfinite))
+    req.exp_snapshot = req.exp
 
     # ---- which configurations / stacks ---------------------------------
     which = profile.get("configs", "all")
@@ -325,6 +332,7 @@ def run_case(draws, prop, tier="quick"):
     digest = hashlib.sha256()
     sample = {"sdl": bundle.sdl, "requests": []}
     prev = None
+    done_requests = []
     for idx in range(nreq):
         try:
             req = _gen_request(draws, spec, bundle, idx, profile, want_mut,
@@ -336,6 +344,7 @@ def run_case(draws, prop, tier="quick"):
                 res.discard = d.why
                 return res
             continue
+        done_requests.append(req)
         if profile.get("activities") and idx > 0:
             _activity(draws.stream("act%d" % idx), bundle, res)
         sreq = {
@@ -418,9 +427,76 @@ def run_case(draws, prop, tier="quick"):
             res.count("probe:same_document_other_variables")
             if req.document is not None:
                 res.count("probe:same_document_object_reused")
+    # ---- overlapped: the same requests again, concurrently on one loop/pool
+    normal = [r for r in done_requests
+              if r.variant == "normal" and r.exp is not None
+              and not r.exp.crash and not r.nonfinite]
+    if profile.get("overlap") and len(normal) >= 2:
+        ost = draws.stream("overlap")
+        if ost.chance(1, 2, "overlap_on"):
+            pair = normal[-2:]
+            config = ("asyncio-inline", "asyncio-thread", "pool")[
+                ost.below(3, "overlap_cfg")]
+            _overlap(res, prop, config, bundle, spec, pair, ost, digest,
+                     sample)
     res.samples = sample
     res.digest = digest.hexdigest()
     return res
+
+
+def _overlap(res, prop, config, bundle, spec, pair, ost, digest, sample):
+    import hashlib
+    requests, worlds = [], []
+    for r in pair:
+        # a repeated document shares its op object with the request it
+        # repeats: recompute this request's expectation from its own state
+        requests.append({
+            "text": r.text, "variables": r.variables,
+            "operation_name": r.operation_name,
+        })
+        worlds.append(World(spec, r.wseed, r.faults))
+    kernel, outs = run_overlapped(config, bundle, requests, worlds, ost,
+                                  policy={"kind": "random"})
+    V = res.violations
+    events = kernel.log.events
+    for rid, (r, out) in enumerate(zip(pair, outs)):
+        if out.status == "stepcap":
+            raise HarnessError("step cap hit in overlapped run")
+        if out.status == "hang":
+            V.append(Violation(("C08",), "hang", (config, "overlapped"),
+                               str(out.exc) or "quiescent, result not done"))
+            continue
+        if out.status == "raised":
+            V.append(Violation(
+                ("C04", "C08", "C10"), "unexpected_exception",
+                (config, type(out.exc).__name__),
+                "overlapped request failed with %r" % (out.exc,)))
+            continue
+        exp = r.exp_snapshot
+        V.extend(oracles.check_response(("C04", "C08"), config, exp,
+                                        out.result))
+        if r.op.kind == "mutation":
+            V.extend(oracles.check_serial(config, exp, events, req_id=rid))
+        V.extend(oracles.check_wellformed("execution", config, out.result,
+                                          r.text, exp))
+        V.extend(oracles.check_hooks(config, "executed", exp, events, ["R0"],
+                                     [], req_id=rid))
+    digest.update(b"overlap")
+    digest.update(kernel.log.digest().encode())
+    order = tuple((e[5], e[4]) for e in events if e[3] in ("re", "rx"))
+    sig = hashlib.sha256(repr((config, "ov", order)).encode()).hexdigest()[:16]
+    res.signatures.append((sig, kernel.stats["max_pending"] >= 2
+                           and any(r.faults for r in pair)))
+    res.count("runs")
+    res.count("runs:overlapped-" + config)
+    res.count("probe:overlapped_requests", len(pair))
+    res.count("kernel_items", kernel.stats["completed"])
+    res.count("sim_seconds_x1000", int(kernel.now * 1000))
+    sample["overlapped"] = {
+        "config": config, "requests": [r.index for r in pair],
+        "interleaving": ["r%s:%s" % (a, "/".join(map(str, b)))
+                         for a, b in order][:40],
+    }
 
 
 def _activity(st, bundle, res):
